@@ -27,7 +27,9 @@ ID = "C10"
 LEVEL = "exploration"
 RULE = ("cases = random mixtures of Dependent[bound, predicate] (predicates with known truth tables over bounds "
         "object / int / bool / MyInt / str / user classes), Literal (1-3 values, also >= 4 Literal methods and "
-        "overlapping values) and static methods, 1-2 dispatched positions, priorities; a quarter of the cases "
+        "overlapping values) and static methods, 1-2 dispatched positions, priorities; one case in sixteen is a set of "
+        "parametrised @dependent_check patterns with typing.Any wildcards on one bound, called on every tuple over the "
+        "pattern alphabet; a quarter of the cases "
         "wrap dependent types in unions / intersections with classes and class-check types; 40-60 calls per case over "
         "a value corpus on both sides of every condition; distinct_nontrivial = distinct (program, call) pairs in "
         "which >= 1 dependent method is a candidate by type and >= 2 methods are candidates")
@@ -38,7 +40,8 @@ ASSUMPTIONS = [
 ]
 REPORT_COUNTERS = ["programs", "calls", "calls_model_checked", "predicate_evaluations", "dependent_entries_checked",
                    "strategy_ifchain", "strategy_table", "strategy_counting", "expected_ambiguous", "expected_fallthrough",
-                   "composite_programs", "isect_vs_subclass_calls", "programs_one_condition_under_two_bounds"]
+                   "composite_programs", "isect_vs_subclass_calls", "programs_one_condition_under_two_bounds",
+                   "programs_wildcard_patterns", "wildcard_calls_two_patterns_hold", "wildcard_expected_ambiguous"]
 
 
 def plan(tier):
@@ -46,7 +49,8 @@ def plan(tier):
     return {"cases": n, "params": {}, "timeout_s": 1500 if tier == "quick" else 7200,
             "min": {"calls_model_checked": 20_000, "predicate_evaluations": 20_000, "dependent_entries_checked": 5_000,
                     
-                    "expected_ambiguous": 300, "expected_fallthrough": 1_000}}
+                    "expected_ambiguous": 300, "expected_fallthrough": 1_000,
+                    "wildcard_calls_two_patterns_hold": 500, "wildcard_expected_ambiguous": 50}}
 
 
 VALUES = [["v", 1000], ["v", -1], ["v", 0], ["v", 1], ["v", 2], ["v", 3], ["v", 4], ["v", 7], ["v", True], ["v", False],
@@ -110,9 +114,48 @@ def _gen_isect_vs_subclass(rng):
     return {"hier": hier, "methods": methods, "npos": 1, "composite": True, "isect_vs_subclass": [isect, S], "calls": calls}
 
 
+def _gen_wild(rng):
+    """Several parametrised `@dependent_check` types with `typing.Any` wildcards on one bound (docs/dependent.md,
+    "Wildcards": `Shape[2, Any]` next to `Shape[2, 2]`), patterns with wildcards in different places and numbers, next to
+    the bound, `object`, another condition on the same bound; every tuple over the pattern alphabet is called."""
+    n = rng.choice([2, 3, 3, 3])
+    alpha = [1, 2] if n == 3 else [1, 2, 3]
+    pats = set()
+    for _ in range(rng.randint(2, 6)):
+        pats.add(tuple(rng.choice(alpha + ["*", "*"]) for _ in range(n)))
+    if rng.random() < 0.5:
+        # a pair that is general in complementary places, with unequal numbers of wildcards
+        base = [rng.choice(alpha) for _ in range(n)]
+        k = rng.randrange(n)
+        pats.add(tuple("*" if i == k else b for i, b in enumerate(base)))
+        pats.add(tuple(b if i == k else "*" for i, b in enumerate(base)))
+    npos = rng.choice([1, 1, 1, 2])
+    second = ["object", "int", "bool", ["D", "int", "even"]]
+    methods = []
+    for p_ in sorted(pats, key=str):
+        pos = [{"n": "a0", "t": ["W", *p_]}] + [{"n": "a1", "t": rng.choice(second)} for _ in range(npos - 1)]
+        methods.append({"pos": pos, "kw": [], "prio": rng.choice([0, 0, 0, 0, 1]), "kind": "leaf"})
+    for t in rng.sample(["tuple", "object", ["D", "tuple", "truthy"], ["D", "tuple", "short"], ["W", *["*"] * n]], rng.randint(1, 3)):
+        pos = [{"n": "a0", "t": t}] + [{"n": "a1", "t": rng.choice(second)} for _ in range(npos - 1)]
+        methods.append({"pos": pos, "kw": [], "prio": rng.choice([0, 0, -1]), "kind": "leaf"})
+    rng.shuffle(methods)
+    for i, m in enumerate(methods):
+        m["mid"] = i
+    import itertools
+    tuples = [["t", *[["v", x] for x in c]] for c in itertools.product(alpha, repeat=n)]
+    tuples += [["t", ["v", 1]], ["t"], ["v", 1], ["v", "a"], ["t", *[["v", 9]] * n], ["t", *[["v", True]] * n]]
+    if npos == 1:
+        calls = [{"pos": [v], "kw": {}} for v in tuples]
+    else:
+        calls = [{"pos": [v, rng.choice([["v", 2], ["v", 3], ["v", True], ["v", "a"]])], "kw": {}} for v in tuples]
+    return {"hier": [], "methods": methods, "npos": npos, "composite": False, "wild": True, "calls": calls}
+
+
 def gen_case(rng, params, idx):
     if idx % 16 == 11:
         return _gen_isect_vs_subclass(rng)
+    if idx % 16 == 6:
+        return _gen_wild(rng)
     if idx % 16 in (2, 10):
         from .c01 import _gen_keyed_group
         spec = dict(_gen_keyed_group(rng), composite=False)
@@ -190,7 +233,7 @@ def gen_case(rng, params, idx):
 
 def _modelled(methods):
     # outcome-vs-model needs the frozen transcription to classify F1: classes, Literal, Dependent over a class bound
-    return all(isinstance(p["t"], str) or p["t"][0] == "L" or (p["t"][0] == "D" and isinstance(p["t"][1], str))
+    return all(isinstance(p["t"], str) or p["t"][0] in ("L", "W") or (p["t"][0] == "D" and isinstance(p["t"][1], str))
                for m in methods for p in m["pos"] + m.get("kw", []))
 
 
@@ -210,6 +253,8 @@ def check_case(spec, res):
         res.count("composite_programs")
     if spec.get("shared_condition"):
         res.count("programs_one_condition_under_two_bounds")
+    if spec.get("wild"):
+        res.count("programs_wildcard_patterns")
     res.sample({k: spec[k] for k in ("hier", "methods", "npos")} | {"calls": spec["calls"][:3]},
                "composite" if spec["composite"] else "plain")
     modelled = _modelled(methods)
@@ -284,6 +329,12 @@ def check_case(spec, res):
             res.nontrivial([pk, [T.vname(v) for v in call["pos"]]])
         if exp[0] == "amb":
             res.count("expected_ambiguous")
+        if spec.get("wild"):
+            nh = sum(1 for m in methods if m["pos"][0]["t"][0] == "W" and T.accepts(m["pos"][0]["t"], env, vals[0][0]) is True)
+            if nh >= 2:
+                res.count("wildcard_calls_two_patterns_hold")
+                if exp[0] == "amb":
+                    res.count("wildcard_expected_ambiguous")
         if any(frozen._is_dep(m) and R.applicable(m, call, env, (vals[0], vals[1])) is False for m in type_cands) and exp[0] == "win":
             res.count("expected_fallthrough")
         e = ("win", exp[1]) if exp[0] == "win" else (exp[0],)
@@ -319,7 +370,7 @@ def _type_candidate(m, pos_vals, env):
         if isinstance(t, str):
             if not isinstance(v, env.cls(t)):
                 return False
-        elif t[0] in ("D", "L"):
+        elif t[0] in ("D", "L", "W"):
             b = T.bound_of(t, env)
             if isinstance(b, str) and not isinstance(v, env.cls(b)):
                 return False
